@@ -20,7 +20,7 @@ def run(eng, ctx):
     SH.sync_set(eng, ctx, "C02.D1", m)
     SH.ubx_skip(eng, ctx, "C02.D2", m)
     SH.nmea_skip(eng, ctx, "C02.D3", m)
-    gate = SH.header_gate(eng, ctx, "C01.D1", m)
+    gate = SH.header_gate(eng, ctx, "C01.D1", m, mode="not-stricter")
     SH.read_script(eng, ctx, "C01.D2", gate)
     SH.read_primitive_contract(eng, ctx, "C01.D3")
     SH.eof_discipline(eng, ctx, "C02.D5", m)
